@@ -60,13 +60,17 @@ IsPermutation(colls, res) ==
   /\ \A v \in { res[i] : i \in DOMAIN res } \cup { colls[i].alone : i \in DOMAIN colls } :
         Cardinality({ i \in DOMAIN res : res[i] = v }) = Cardinality({ i \in DOMAIN colls : colls[i].alone = v })
 
+\* kinds are interleaved: some kind occurs on both sides of another kind (regrouping by kind then moves results)
+Interleaved(colls) == \E i, j, q \in DOMAIN colls : i < j /\ j < q /\ colls[i].kind = colls[q].kind /\ colls[i].kind # colls[j].kind
+
 \* clauses a recorded ComputeTogether violates (the first one is the verdict, the others name the cause)
 TogetherBad(colls, res, raised) ==
   IF raised THEN { "Raised" }
   ELSE IF TogetherOK(colls, res) THEN {}
   ELSE { "Together" }
        \cup (IF TupleClashes(colls) # {} THEN { "KeyClash" } ELSE {})
-       \cup (IF IsPermutation(colls, res) /\ Cardinality({ colls[i].kind : i \in DOMAIN colls }) > 1 THEN { "Permuted" } ELSE {})
+       \cup (IF Interleaved(colls) THEN { "Interleaved" } ELSE {})
+       \cup (IF IsPermutation(colls, res) THEN { "Permuted" } ELSE {})
 
 -----------------------------------------------------------------------------
 \* ---- model of dask.compute on a tuple (each collection: one output key `out` among its keys)
